@@ -432,6 +432,21 @@ package litefs
 // pageSize+8 bytes is in place for ReadFrame.
 //@ func (r *JournalReader) Next [C17,C05]
 //@   requires  jrOK(r) && r.pageSize <= 65536
+// SQLite's rule for the end of the journal: a segment whose header was read in full, is not zeroed, carries the magic
+// (after the first segment) and a non-zero sector size (first segment) is refused with io.EOF only if the file does not
+// even hold that whole header sector -- a journal of exactly one sector is a valid (empty) segment.
+//@   ghost rd int = 0
+//@   ghost zero bool = false
+//@   ghost sec uint32 = 0
+//@   ghost magic bool = true
+//@   on call internal.ReadFullAt ; then rd = (ret1 == nil ? 1 : 2)
+//@   on call isByteSliceZero ; then zero = ret0, sec = be32(arg0, 20)
+//@   on call bytes.Equal ; then magic = ret0
+//@   proves    err == io.EOF && old(r.pageSize) != 0 && rd == 1 && !zero && (r.offset == 0 ? sec != 0 : magic) ==> r.offset + int64(r.sectorSize) > fileSize(r.fi)
+// a header that is refused at sight (short read, all zero, or missing magic after the first segment) leaves the fields of
+// the last ACCEPTED header untouched: rollbackJournal restores the size (r.commit) of the last valid header
+//@   ensures   err != nil && old(r.pageSize) == 0 ==> unchanged(r.commit, r.nonce, r.frameN)
+//@   proves    err == io.EOF && (rd == 2 || (rd == 1 && zero) || (rd == 1 && r.offset != 0 && !magic)) ==> unchanged(r.commit, r.nonce, r.frameN)
 //@   ensures   jrOK(r) && r.pageSize == old(r.pageSize)
 //@   ensures   err == nil ==> r.sectorSize != 0 && r.pageSize != 0 && len(r.frame) == int(r.pageSize) + 8
 //@   ensures   err == nil ==> r.offset == old(r.offset) + int64(r.sectorSize) || old(r.offset) != 0
@@ -490,7 +505,7 @@ package litefs
 // The per-page and per-block checksum slices never share a backing array.
 //@ pred chkArraysDisjoint(db *DB) = cap(db.chksums.blocks) == 0 || cap(db.chksums.pages) == 0 || !sameArray(db.chksums.pages, db.chksums.blocks)
 
-//@ func pageChksumBlock [C04,C03]
+//@ func pageChksumBlock [C04,C03,C02]
 //@   requires  pgno > 0
 //@   modifies
 //@   ensures   result == (pgno - 1) / 256
@@ -672,7 +687,7 @@ package litefs
 //@   ensures   pgno != ltx.LockPgno(db.pageSize) && pgno > pageN ==> !ok
 //@   nopanic
 
-//@ func (db *DB) recomputeBlockChksum [C04]
+//@ func (db *DB) recomputeBlockChksum [C04,C02]
 //@   requires  db != nil && len(db.chksums.pages) <= 0xffffffff && len(db.chksums.blocks) <= 0xffffffff && block < 0xffffff && chkArraysDisjoint(db)
 //@   loop 1 invariant i <= 256 && len(db.chksums.blocks) > int(block) && (i > 0 ==> chksum & ltx.ChecksumFlag != 0)
 //@   loop 1 decreases 256 - int(i)
@@ -682,7 +697,7 @@ package litefs
 //@   ensures   chkArraysDisjoint(db)
 //@   nopanic
 
-//@ func (db *DB) blockChksum [C04]
+//@ func (db *DB) blockChksum [C04,C02]
 //@   requires  db != nil && len(db.chksums.pages) <= 0xffffffff && len(db.chksums.blocks) <= 0xffffffff && block < 0xffffff && chkArraysDisjoint(db)
 //@   modifies  db.chksums.blocks, contents(db.chksums.blocks)
 //@   ensures   len(db.chksums.blocks) <= 0xffffffff && chkArraysDisjoint(db)
@@ -698,6 +713,13 @@ package litefs
 //@   loop 1 modifies contents(ignoredBlocks)
 //@   loop 2 invariant len(ignoredBlocks) == int(blockN)
 //@   loop 2 modifies contents(ignoredBlocks)
+// Which blocks are summed page by page: EVERY block below blockN that holds a page of the WAL overlay (old or new) --
+// including the zero markers of truncated pages beyond pageN in the last block. Stated over the keys the two map ranges
+// have produced so far, and, once a range has ended, over all keys of that map.
+//@   loop 1 invariant forall p uint32 :: visited(1, p) && (p - 1) / 256 < blockN ==> ignoredBlocks[int((p - 1) / 256)]
+//@   loop 2 invariant forall p uint32 :: has(db.wal.chksums, p) && (p - 1) / 256 < blockN ==> ignoredBlocks[int((p - 1) / 256)]
+//@   loop 2 invariant forall p uint32 :: visited(2, p) && (p - 1) / 256 < blockN ==> ignoredBlocks[int((p - 1) / 256)]
+//@   loop 3 invariant forall p uint32 :: (has(db.wal.chksums, p) || has(newWALChecksums, p)) && (p - 1) / 256 < blockN ==> ignoredBlocks[int((p - 1) / 256)]
 //@   loop 3 invariant len(ignoredBlocks) == int(blockN) && dbWF(db) && db.pageSize != 0 && block <= blockN &&
 //@          ((block == 0 && chksum == 0) || chksum & ltx.ChecksumFlag != 0)
 //@   loop 3 modifies db.chksums.blocks, contents(db.chksums.blocks)
@@ -874,6 +896,24 @@ package litefs
 //@   requires  dbWF(db)
 //@   ghost older bool = false
 //@   on call time.Time.Before ; then older = ret0
-//@   on call OS.Remove op "ENFORCERETENTION" assert older && i != len(ents) - 1 && (db.store.BackupClient != nil ==> maxTXID < hwm)
+// (the acknowledged high-water mark and the file's LAST transaction ID are taken from the calls that produce them, not from
+// local variable names: a file that merely STARTS below the mark may end above it)
+//@   ghost h ltx.TXID = 0
+//@   ghost fmax ltx.TXID = 0
+//@   on call DB.HWM ; then h = ret0
+//@   on call ltx.ParseFilename ; then fmax = ret1
+//@   on call OS.Remove op "ENFORCERETENTION" assert older && i != len(ents) - 1 && (db.store.BackupClient != nil ==> fmax < h)
 //@   loop 1 invariant -1 <= rangeindex && rangeindex < len(ents)
 //@   nopanic
+
+// ===========================================================================
+// litefs.go — contextCause: the reason a done context ended; falls back to ctx.Err() when context.Cause has none.
+// UNCHECKED (untagged) assumption, listed in the evidence: it is called only right after a receive from ctx.Done(), and a
+// done context's Err() is non-nil (the contract of context.Context); the engine does not relate Done() and Err().
+// The cause is never litefs's private marker error errHaltLockAlreadyAcquired (only the callback inside AcquireHaltLock
+// returns it; nothing passes it to a CancelCauseFunc).
+//@ func contextCause
+//@   requires  ctx != nil
+//@   pure
+//@   ensures   result != nil && result != errHaltLockAlreadyAcquired
+
